@@ -203,7 +203,9 @@ def evaluate(ctx, cases, decode='min'):
     if not cases:
         return []
     impl = ctx.harness('frames', [to_line(c) for c in cases], args=['--stats', '--decode', decode], shards=8)
-    both = ctx.coq_eval(REQUIRES, FN, [to_coq(c) for c in cases], case_type=CASE_TYPE, per_shard=80)
+    both = []
+    for k in range(0, len(cases), 3200):          # keep each generated .v file small (coqc chokes on multi-MB literals)
+        both += ctx.coq_eval(REQUIRES, FN, [to_coq(c) for c in cases[k:k + 3200]], case_type=CASE_TYPE, per_shard=80)
     res = []
     for i, b in zip(impl, both):
         out, stats = strip_stats(i)
